@@ -101,6 +101,16 @@ fn gen_string(r: &mut Rng) -> String {
         }
         return t;
     }
+    if r.chance(1, 150) {
+        // short enough as a string, longer than 1024 characters once quoted and escaped
+        let (c, lo, hi) = r.pick(&[('\\', 500usize, 1000usize), ('"', 500, 1000), ('\u{1}', 165, 600), ('\u{9c}', 165, 600), ('\t', 500, 1000)]);
+        let n = r.range(lo, hi);
+        let mut t: String = std::iter::repeat(c).take(n).collect();
+        if r.chance(1, 2) {
+            t.insert(0, 'p');
+        }
+        return t;
+    }
     match r.below(10) {
         0..=2 => r.pick(TYPE_WORDS).to_string(),
         3..=5 => {
